@@ -1,4 +1,5 @@
 import VlsModel.Prim.Sha256
+import VlsModel.Gen.Enforcement
 /-
 Executable model of `CounterpartyCommitmentSecrets` (vls-core/src/policy/validator.rs:542-646,
 copied there from LDK): the compact BOLT-3 store of revealed per-commitment secrets.
@@ -17,7 +18,7 @@ No Mathlib import (linked into the `vlsmodel` executable).
 namespace VlsModel.Secrets
 
 /-- `1 << 48`: the value `get_min_seen_secret` starts from. -/
-def N48 : Nat := 281474976710656
+def N48 : Nat := Gen.Enforcement.secretIndexSpace   -- regenerated from policy/validator.rs
 
 /-- `place_secret`: number of trailing zero bits, capped at 48
     (`for i in 0..48 { if idx & (1 << i) == (1 << i) { return i } } 48`). -/
